@@ -515,6 +515,13 @@ class DatasetProcessor:
 
         self.process_assigned_reads(sample, saves_file)
         if not self.args.read_assignments and not self.args.keep_tmp:
+            # locks go first: an interrupted clean-up must not leave a lock without the files it vouches for
+            chr_ids = self.get_chr_list()
+            for lock_file in [read_group_lock_filename(sample), saves_file + "_lock"]:
+                if os.path.exists(lock_file):
+                    os.remove(lock_file)
+            clean_locks(chr_ids, saves_file, reads_processed_lock_file_name)
+            clean_locks(chr_ids, saves_file, reads_collected_lock_file_name)
             for f in glob.glob(saves_file + "_*"):
                 os.remove(f)
             for f in glob.glob(sample.read_group_file + "*"):
